@@ -43,7 +43,8 @@ KEYWORD_LIKE = ["NULL", "null", "Null", "TRUE", "true", "False", "FALSE",
                 "end_group"]
 NUMBER_LIKE = ["12", "-3", "+7", "1e5", "1E-3", ".5", "1.", "1_0", "inf", "nan",
                "Infinity", "-inf", "0", "007", "1.5e+10", "0x1F", "+.5"]
-TIME_LIKE = ["2001-01-01", "2001-001", "12:00", "23:59:60", "12:00:00.5",
+TIME_LIKE = ["20010101T120000", "2004-W10", "2001-01-01T12", "20010101", "2001-01",
+             "2001-01-01", "2001-001", "12:00", "23:59:60", "12:00:00.5",
              "2001-01-01T12:00:00", "12:00Z", "12:00+05", "2001-01-01T01:02-0530",
              "2001-366", "1999-12-31T23:59:60.5Z"]
 BASED_LIKE = ["2#101#", "16#FF#", "-8#7#", "16#-1A#", "10#9#", "3#12#", "2#2#"]
@@ -95,7 +96,10 @@ def gen_string(rng, dialect, width):
                            "{w}\t{w2}", "{w} \t {w2}"))
         return Leaf(form.format(w=w(), w2=w()), "str:outer-or-multi-space")
     if r < 0.82:
-        form = rng.choice(("{w}\n{w2}", "{w}\r\n{w2}", "{w} \n  {w2}", "{w}-\n{w2}",
+        form = rng.choice(("{w}\nEND\n{w2}", "{w}\nend\n{w2}", "{w}\n  End;\n{w2}",
+                           "{w}\nEND_GROUP\n{w2}", "{w}\nGROUP = x\n{w2}",
+                           "{w}\n# {w2}\nEND",
+                           "{w}\n{w2}", "{w}\r\n{w2}", "{w} \n  {w2}", "{w}-\n{w2}",
                            "{w}-\n   {w2}", "\n{w}", "{w}\n", "{w}\n\n{w2}",
                            "{w}\f{w2}", "{w}\v{w2}", "{w}-\r\n {w2}"))
         return Leaf(form.format(w=w(), w2=w()), "str:line-breaks")
@@ -131,7 +135,9 @@ def gen_string(rng, dialect, width):
 # --------------------------------------------------------------------------
 INTS = [0, 1, -1, 255, -255, 10 ** 20, -(10 ** 20), 7, 42, 1000000]
 FLOATS = [0.0, -0.0, 1.5, -2.25, 1e-300, 1e22, 123456789.12345679, 0.1, 1e16,
-          -1e-7, 5e-324, 1.7976931348623157e308, 100.0, 3.14159]
+          -1e-7, 5e-324, 1.7976931348623157e308, 100.0, 3.14159,
+          -1e22, -1.5e+22, -1e16, -1.7976931348623157e308, -5e-324, -1e-300,
+          1.5e+300, -2.5e-10]
 
 
 def gen_number(rng):
